@@ -132,6 +132,30 @@ class VObj(V):
         return "VObj(%s %s)" % (self.cls, self.name)
 
 
+class VRef(V):
+    """Reference to an object of a heap-allocated class (world.heap_classes): a mathematical integer, 0 is None.
+    Fields live in one array per (class, field) in the executor's heap; identity is integer equality."""
+
+    def __init__(self, cls, t):
+        self.cls = cls
+        self.t = z3.IntVal(t) if isinstance(t, int) else t
+
+    def __repr__(self):
+        return "VRef(%s %s)" % (self.cls, self.t)
+
+
+class VArr(V):
+    """Ghost array (specification only): total map Int -> T, used for the abstract sequence of a linked structure
+    (ns[i] = i-th node) together with an explicit length."""
+
+    def __init__(self, ety, t):
+        self.ety = ety
+        self.t = t
+
+    def __repr__(self):
+        return "VArr(%s %s)" % (self.ety, self.t)
+
+
 class DictVal:
     """immutable content of a dict box: key set + value array (values at absent keys are junk that is
     carried along unchanged, so equality of two DictVals implies equality of the dicts)"""
@@ -245,6 +269,10 @@ def sort_of(ty):
         return SeqI
     if isinstance(ty, tuple) and ty[0] == "list":
         return z3.SeqSort(sort_of(ty[1]))
+    if isinstance(ty, tuple) and ty[0] == "ref":
+        return I
+    if isinstance(ty, tuple) and ty[0] == "arr":
+        return z3.ArraySort(I, sort_of(ty[1]))
     if isinstance(ty, tuple) and ty[0] == "rec":
         return rec_sort(ty[1])[0]
     if isinstance(ty, tuple) and ty[0] == "opt":
@@ -269,6 +297,10 @@ def wrap(ty, term):
         return VSeq(ty, "int", term)
     if isinstance(ty, tuple) and ty[0] == "list":
         return VSeq("list", ty[1], term)
+    if isinstance(ty, tuple) and ty[0] == "ref":
+        return VRef(ty[1], term)
+    if isinstance(ty, tuple) and ty[0] == "arr":
+        return VArr(ty[1], term)
     if isinstance(ty, tuple) and ty[0] == "tuple":
         _, mk, accs = _tuple_sorts[tuple(ty[1])] if tuple(ty[1]) in _tuple_sorts else (sort_of(ty), None, None)
         _, mk, accs = _tuple_sorts[tuple(ty[1])]
@@ -305,6 +337,14 @@ def unwrap(ty, v):
     if ty == "bool":
         return v.t
     if ty in ("str", "bytes"):
+        return v.t
+    if isinstance(ty, tuple) and ty[0] == "ref":
+        if v is NONE:
+            return z3.IntVal(0)
+        if isinstance(v, VOpt):
+            return z3.If(v.isnone, 0, v.val.t)
+        return v.t
+    if isinstance(ty, tuple) and ty[0] == "arr":
         return v.t
     if isinstance(ty, tuple) and ty[0] == "list":
         if isinstance(v, VBox):
@@ -359,6 +399,10 @@ def type_of(v):
         return v.kind if v.kind in ("str", "bytes") else ("list", v.ety)
     if isinstance(v, VTuple):
         return ("tuple", [type_of(x) for x in v.items])
+    if isinstance(v, VRef):
+        return ("ref", v.cls)
+    if isinstance(v, VArr):
+        return ("arr", v.ety)
     if isinstance(v, VObj) and v.cls in REC_CLASSES:
         return ("rec", v.cls)
     if isinstance(v, VOpt) and isinstance(v.val, VObj) and v.val.cls in REC_CLASSES:
@@ -384,6 +428,10 @@ def fresh(ty, base, facts=None):
         return VTuple([fresh(t, "%s_%d" % (base, i), facts) for i, t in enumerate(ty[1])])
     if isinstance(ty, tuple) and ty[0] == "opt":
         return VOpt(z3.Bool(nm + "?none"), fresh(ty[1], base, facts))
+    if isinstance(ty, tuple) and ty[0] == "ref":
+        return VRef(ty[1], z3.Int(nm))
+    if isinstance(ty, tuple) and ty[0] == "arr":
+        return VArr(ty[1], z3.Const(nm, sort_of(ty)))
     raise TypeError("fresh %r" % (ty,))
 
 
